@@ -103,3 +103,24 @@ _add(
          "post-conditions are asserted inside each firing of the real Clamping / Normalization hooks.",
     technique="runtime monitoring: firing state-machine monitor over random lifecycle sequences + post-condition assertions hooked into each firing",
 )
+
+_add(
+    "C10",
+    rule="(a) random 4-18 operation interleavings of part contributions (pair / pos-only / neg-only / bare tensor) from "
+         "up to three pseudo-trainers, update(clear or not), updatesome, clear and double update on the updater of a real "
+         "LinearDense (weight, bias, delay), for every half / full bounding kernel with limits and powers, reductions "
+         "{default, sum, mean, amax, custom} installed through the constructor or the accumulator, float32/float64, "
+         "parameters inside and outside the limits; each operation is one evaluation judged against a list-of-parts "
+         "model with float64 kernels from their definitions; plus a permuted-order twin comparison per case; (b) 5000 "
+         "consecutive updates per run under multiplicative / scaled multiplicative / scaled power / sharp bounding "
+         "with reduced magnitudes at the stated limit, range invariant checked after every application. distinct = "
+         "(operation, bound, half, reduction and route, dtype, inside/outside, contribution form) abstractions.",
+    required=["contributions", "applications", "second_applications", "permutation_checks",
+              "custom_reduction_applications", "longrun_applications"],
+    floor={"quick": 150, "thorough": 300},
+    text="Held on every interleaving explored: parameter values after each update / updatesome / clear on the real "
+         "Updater are compared with old + U(reduce(pos)) - L(reduce(neg)) computed from recorded parts, a spy reduction "
+         "shows which reduction is called, contribution order is permuted on a twin, and range / sharp invariants are "
+         "asserted after each of thousands of consecutive applications.",
+    technique="runtime monitoring: list-of-parts reference model + spy reduction + long-run range invariant on the real Updater / Accumulator and bounding kernels",
+)
